@@ -589,7 +589,7 @@ func snapshots(r *engine.Rec) {
 func init() {
 	engine.Register(&engine.Check{
 		ID:        "C17",
-		Technique: "explicit-state enumeration of the real iterator: every (size, slot, second-iterator slot) state x every move incl. ToSlot(k) for k in -n-2..n+2 on either iterator (covers move sequences of any length), plus snapshot scenarios for all seven collection kinds x every mutating operation",
+		Technique: "explicit-state enumeration of the real iterator: every (size, slot, second-iterator slot) state x every move incl. ToSlot(k) for k in -n-2..n+2 and at the ends of the int range on either iterator (covers move sequences of any length), plus snapshot scenarios for all seven collection kinds x every mutating operation",
 		Rule:      "state = (source, size, slot, slot of a second iterator over the same collection); transition = one move on the real iterator compared with a (slice, slot) model",
 		Assume:    []string{"sizes 0..4 (quick) / 0..9 (thorough)", "ToSlot(k<-size) admits slot 0 or 1 (the statement only says clamp)", "Catalog iterators yield live association handles by design (compared by identity)"},
 		Budget:    func(string) time.Duration { return 2 * time.Minute },
